@@ -705,3 +705,18 @@ Example C01_single_successor_insertion_any_level_example :
                  mkNode 21 20 [21; 7] [21] (KOrig 1) ]
                1 (-1) 30 20 [5; 6] 4 = true.
 Proof. vm_compute. reflexivity. Qed.
+
+(* The per-call columns compare the hierarchy a path theorem speaks about (write_back h lvl g1') with the
+   hierarchy the implementation produced up to the order of the node list: same length, every node found field
+   for field under its name (Extract.xnode_eqb).  That comparison is enough (Model/HierEquiv.v): such
+   hierarchies have the same lookups, the same resolution of region names, the same resolved leaf graph and
+   hence the same flat walks. *)
+From V Require Import Model.HierEquiv.
+Theorem C01_compared_hierarchies_have_the_same_walks :
+  forall a b top strict,
+    xhier_eqb a b = true -> flat_okb a top true = true ->
+    forall n e ds tr st,
+      (exists bn p, find a n = Some bn /\ n_kind bn = KOrig p) ->
+      (WTrace a (resolve_flat a) strict n e ds tr st <-> WTrace b (resolve_flat b) strict n e ds tr st).
+Proof. exact compared_equal_same_walks. Qed.
+Print Assumptions C01_compared_hierarchies_have_the_same_walks.
